@@ -48,7 +48,7 @@ def set_determinants(propka_groups: List[Group], version: Version, options=None)
     # --- NonIterative section ---#
     for group1 in propka_groups:
         for group2 in propka_groups:
-            if group1 == group2:
+            if group1 is group2:
                 break
             # do not calculate interactions for coupled groups
             if group2 in group1.covalently_coupled_groups:
